@@ -35,4 +35,7 @@ CASES = [
          new="            def probe():\n                return hashset.push(key)\n\n            try:\n                is_new = probe()\n            except Exception as ex:\n                observer.on_error(ex)\n                return\n")]),
     dict(expect="fire", desc="seed C09-r4/1: on_error_resume_next reports `state` instead of the factory's exception", names="E2-routes", edits=[dict(file="reactivex/observable/onerrorresumenext.py",
          old="                observer.on_error(ex)", new="                observer.on_error(state)")]),
+    dict(expect="fire", desc="seed C09-r5/1: on_error_resume_next calls the user factory inside the try that takes StopIteration for the end", names="E2-routes", edits=[dict(file="reactivex/observable/onerrorresumenext.py",
+         old="            try:\n                source = next(sources_)\n            except StopIteration:\n                observer.on_completed()\n                return\n\n            # Allow source to be a factory method taking an error\n            try:\n                source = source(state) if callable(source) else source\n            except Exception as ex:",
+         new="            try:\n                source = next(sources_)\n                source = source(state) if callable(source) else source\n            except StopIteration:\n                observer.on_completed()\n                return\n            except Exception as ex:")]),
 ]
